@@ -19,7 +19,7 @@ open Relic Relic.Magic
     unparsed, the constants are declared in the order the model numbers them -/
 theorem generated_rules_eq :
     Generated.Magic.rules = rules ∧ Generated.Magic.unknown = [] ∧
-    Generated.Magic.detectOther = ["br := bufio.NewReader(r)", "return FileTypeUnknown"] ∧
+    Generated.Magic.detectOther = ["br := bufio.NewReaderSize(r, 0x10000+4)", "return FileTypeUnknown"] ∧
     Generated.Magic.typeNames = ["FileTypeUnknown", "FileTypeRPM", "FileTypeDEB", "FileTypePGP", "FileTypeJAR", "FileTypePKCS7",
       "FileTypePECOFF", "FileTypeMSI", "FileTypeCAB", "FileTypeAppManifest", "FileTypeCAT", "FileTypeAPPX", "FileTypeVSIX",
       "FileTypeXAP", "FileTypeAPK", "FileTypeMachO", "FileTypeMachOFat", "FileTypeIPA", "FileTypeXAR"] ∧
@@ -49,12 +49,14 @@ theorem generated_sources_eq :
 
 /-- both sign commands pick the module with `signers.ByFile(argFile, argSigType)` and refuse a module without `Sign`; the
     remote client sends `mod.Name` as `sigtype` and the base name as `filename`; the server looks up
-    `ByName(query.Get("sigtype"))` and nothing else, and does *not* test `mod.Sign == nil`; `verifyOne` uses
+    `ByName(query.Get("sigtype"))` and nothing else, and answers "unknown signature type" exactly when that is nil or has
+    no `Sign` (the repair of FM5); `verifyOne` uses
     `DetectCompressed`, `ByMagic`, then `ByFileName` -/
 theorem generated_frontends_ok :
     Generated.Magic.tokenMod = ["signers.ByFile(argFile, argSigType)"] ∧
     Generated.Magic.remoteMod = ["signers.ByFile(argFile, argSigType)"] ∧
-    Generated.Magic.tokenNilTest = true ∧ Generated.Magic.remoteNilTest = true ∧ Generated.Magic.serverNilTest = false ∧
+    Generated.Magic.tokenNilTest = true ∧ Generated.Magic.remoteNilTest = true ∧
+    Generated.Magic.serverRefuse = ["mod == nil || mod.Sign == nil"] ∧
     Generated.Magic.remoteSigtype = ["mod.Name"] ∧ Generated.Magic.remoteFilename = ["filepath.Base(argFile)"] ∧
     Generated.Magic.serverMod = ["signers.ByName(sigType)"] ∧ Generated.Magic.serverSigType = ["query.Get(\"sigtype\")"] ∧
     Generated.Magic.serverFilename = ["query.Get(\"filename\")"] ∧
@@ -156,30 +158,68 @@ theorem dispatch_functions_order_independent (l : List Signer) (h : l.Perm regis
   rw [e1, e2, e3]
   exact ⟨rfl, rfl, rfl⟩
 
-/-! ### what the server does not do like the commands -/
+/-! ### the server refuses what the commands refuse -/
 
-/-- (full statement) whenever the sign command refuses a `--sig-type`, the server refuses the same `sigtype` with an
-    error response -/
-def server_refuses_what_standalone_refuses_full : Prop :=
+/-- the statement, for a server dispatch function `srv`: whenever the sign command refuses an explicit `--sig-type`
+    ("no signer with that name", "can't sign files of type"), the server answers that `sigtype` with the error response
+    "unknown signature type" (or "missing parameter" when no file name was sent) — it neither signs nor panics -/
+def ServerRefusesWhatStandaloneRefuses (srv : Bytes → Bytes → SrvOut) : Prop :=
   ∀ (name sigtype bs fn : Bytes) (zn : Option (List Bytes)), sigtype ≠ [] →
-    (∃ e, signDispatch name sigtype bs zn = .error e) → ∀ m, serverDispatch sigtype fn ≠ .panicNilSign m
+    (∃ e, signDispatch name sigtype bs zn = .error e) → srv sigtype fn = .unknownSigtype ∨ srv sigtype fn = .missingParameter
 
-/-- FALSE on the unchanged tree: `sigtype=pkcs7` (likewise `mach-o-fat`, `ipa`: modules that only verify) makes
+/-- with an explicit type the server and the commands agree completely: same module entered, or refused on both sides -/
+theorem server_eq_standalone_for_explicit_sigtype (name sigtype bs fn : Bytes) (zn : Option (List Bytes))
+    (hs : sigtype ≠ []) (hf : fn ≠ []) :
+    serverDispatch sigtype fn =
+      match signDispatch name sigtype bs zn with
+      | .ok m => .sign m
+      | .error _ => .unknownSigtype := by
+  simp only [serverDispatch, serverDispatchIn, signDispatch, signDispatchIn, byFileIn, hs, hf, ne_eq, not_false_eq_true, if_true, if_false]
+  cases hb : byNameIn registered sigtype with
+  | none => rfl
+  | some m =>
+    simp only
+    cases hsn : m.hasSign <;> simp
+
+/-- **(full strength, the code as repaired.)**  For ALL names, types, contents: what the sign command refuses, the server
+    refuses with an error response. -/
+theorem server_refuses_what_standalone_refuses : ServerRefusesWhatStandaloneRefuses serverDispatch := by
+  intro name sigtype bs fn zn hs ⟨e, he⟩
+  by_cases hf : fn = []
+  · right; simp [serverDispatch, serverDispatchIn, hf]
+  · left
+    rw [server_eq_standalone_for_explicit_sigtype name sigtype bs fn zn hs hf, he]
+
+/-- the repaired handler never calls a nil `Sign` -/
+theorem server_never_panics (sigtype fn : Bytes) (m : Signer) : serverDispatch sigtype fn ≠ .panicNilSign m := by
+  unfold serverDispatch serverDispatchIn
+  split
+  · intro h; cases h
+  · split
+    · intro h; cases h
+    · split <;> (intro h; cases h)
+
+example : signDispatch [102] sPkcs7.name [] none = .error (.cantsign sPkcs7.name) ∧
+    serverDispatch sPkcs7.name [102] = .unknownSigtype := by decide
+
+/-- **the original code (finding FM5).**  `sigtype=pkcs7` (likewise `mach-o-fat`, `ipa`: modules that only verify) made
     `serveSign` call the nil `mod.Sign`; the commands answer "can't sign files of type: pkcs7". -/
 theorem server_nil_sign_panic :
     signDispatch [102] sPkcs7.name [] none = .error (.cantsign sPkcs7.name) ∧
-    serverDispatch sPkcs7.name [102] = .panicNilSign sPkcs7 ∧
-    serverDispatch sFat.name [102] = .panicNilSign sFat ∧ serverDispatch sIpa.name [102] = .panicNilSign sIpa := by
+    serverDispatchOrig sPkcs7.name [102] = .panicNilSign sPkcs7 ∧
+    serverDispatchOrig sFat.name [102] = .panicNilSign sFat ∧ serverDispatchOrig sIpa.name [102] = .panicNilSign sIpa := by
   decide
 
-theorem server_refuses_what_standalone_refuses_false : ¬ server_refuses_what_standalone_refuses_full := by
+theorem server_refuses_what_standalone_refuses_orig_false : ¬ ServerRefusesWhatStandaloneRefuses serverDispatchOrig := by
   intro h
-  exact h [102] sPkcs7.name [] [102] none (by decide) ⟨_, server_nil_sign_panic.1⟩ sPkcs7 server_nil_sign_panic.2.1
+  have := h [102] sPkcs7.name [] [102] none (by decide) ⟨_, server_nil_sign_panic.1⟩
+  rw [server_nil_sign_panic.2.1] at this
+  rcases this with h | h <;> cases h
 
-/-- what does hold: the server panics on exactly the names of modules without `Sign`; an unknown name is refused -/
-theorem server_panics_only_for_verify_only_modules_partial (sigtype fn : Bytes) (m : Signer)
-    (h : serverDispatch sigtype fn = .panicNilSign m) : m ∈ [sFat, sIpa, sPkcs7] ∧ m.answers sigtype = true := by
-  unfold serverDispatch serverDispatchIn at h
+/-- the original code panicked on exactly the names of modules without `Sign` -/
+theorem server_orig_panics_only_for_verify_only_modules (sigtype fn : Bytes) (m : Signer)
+    (h : serverDispatchOrig sigtype fn = .panicNilSign m) : m ∈ [sFat, sIpa, sPkcs7] ∧ m.answers sigtype = true := by
+  unfold serverDispatchOrig serverDispatchOrigIn at h
   split at h
   · cases h
   · split at h
